@@ -49,7 +49,8 @@ def s_sd_case(draw, tier, custom=False):
     ext = draw(st.sampled_from([0.25, 0.5, 1.0, 1.7, 2.0, 3.3]))
     n_tile = draw(st.integers(2, 6))
     own = draw(st.integers(0, 5)) == 0
-    return dict(spec=spec, dt=dt, k=k, ext=ext, n_tile=n_tile, own=own)
+    frac = draw(st.sampled_from([0.0, 0.0, 0.25, 0.5, 0.75]))
+    return dict(spec=spec, dt=dt, k=k, ext=ext, n_tile=n_tile, own=own, frac=frac)
 
 
 def _weight_integral(C, a, b, dt):
@@ -90,6 +91,20 @@ def run_sd(case):
     out.check_close("ref/triangle", tri, r_tri, tol_eta(abs(r_tri), spec, 8), "triangle vs R-corr")
     out.check_close("ref/square", sq, r_sq, tol_eta(scale, spec), "square vs R-corr")
     out.check_close("ref/rectangle", rec, r_rec, tol_eta(scale, spec), "rectangle vs R-corr")
+    # --- cells that overlap the diagonal (time_1 < delta): the part below the diagonal uses C(-tau) = conj C(tau)
+    fr = case.get("frac")
+    if fr is not None:
+        out.label("diagonal-overlap")
+        ta = fr * dt
+        tb = ta + ext * dt
+        sq0 = c.correlation_2d_integral(dt, ta, shape="square")
+        rc0 = c.correlation_2d_integral(dt, ta, tb, shape="rectangle")
+        sc0 = abs(R.eta(spec, max(tb, ta + dt))) + abs(r_tri)
+        out.check_close("ref/square-on-diagonal", sq0, R.rect(spec, ta, ta + dt, dt), tol_eta(sc0, spec), "square with time_1 < delta vs R-corr")
+        out.check_close("ref/rectangle-on-diagonal", rc0, R.rect(spec, ta, tb, dt), tol_eta(sc0, spec), "rectangle with time_1 < delta vs R-corr")
+        en = complex(c.eta_function(-0.7 * dt))
+        ep = complex(c.eta_function(0.7 * dt))
+        out.check_close("eta(-t)=conj", en, np.conj(ep), tol_eta(abs(ep), spec, 8), "eta(-t) vs conj eta(t)")
     # --- (iii) positivity and symmetry
     if not (tri.real > 0):
         out.fail("triangle-real-part-not-positive", f"Re={tri.real}")
